@@ -421,6 +421,20 @@ theorem sampleAt_take (f : List Nat) (k off : Nat) (h : off + 4 ≤ k) : sampleA
   simp only [sampleAt, getD_take']
   rw [if_pos (by omega), if_pos (by omega), if_pos (by omega), if_pos (by omega)]
 
+theorem toArray_getD {α} (l : List α) (i : Nat) (d : α) : l.toArray.getD i d = l.getD i d := by
+  simp [Array.getD, List.getD_eq_getElem?_getD]
+  split <;> rename_i h
+  · simp [List.getElem?_eq_getElem h]
+  · simp [List.getElem?_eq_none (by omega : l.length ≤ i)]
+
+theorem sampleAtA_toArray (f : List Nat) (off : Nat) : sampleAtA f.toArray off = sampleAt f off := by
+  simp only [sampleAtA, sampleAt, toArray_getD]
+
+theorem sliceStart_neg (n : Nat) (b : Int) (hb : 0 < b) : ((sliceStart n (-b) : Nat) : Int) = max 0 ((n : Int) - b) := by
+  have h : -b < 0 := by omega
+  simp only [sliceStart, if_pos h]
+  omega
+
 theorem truncation_safe_lemma (hdr : List Nat) (s : List Int) (hh : hdr.length = headerLen)
     (hs : ∀ j, j < s.length → -2147483648 ≤ s.getD j 0 ∧ s.getD j 0 < 2147483648)
     (k : Nat) (hk : k < headerLen + 4 * s.length) :
@@ -431,11 +445,11 @@ theorem truncation_safe_lemma (hdr : List Nat) (s : List Int) (hh : hdr.length =
     rw [List.length_take, List.length_append, length_bodyBytes, hh]; omega
   by_cases hc : k < headerLen
   · left; refine ⟨hc, ?_⟩
-    simp only [readCounts, hlen, if_pos hc]
+    simp only [readCounts, readCountsG, hlen, if_pos hc]
   · right; refine ⟨by omega, ?_⟩
-    simp only [readCounts, hlen, if_neg hc]
-    have hm : ¬ (4 * (s.length : Int) - ((k : Int) - (headerLen : Int)) ≤ 0) := by
-      simp only [headerLen] at *; omega
+    simp only [readCounts, readCountsG, hlen, if_neg hc, sampleAtA_toArray]
+    have hm : ¬ (modelMissing (s.length : Int) (k : Int) (headerLen : Int) 0 ≤ 0) := by
+      simp only [modelMissing, headerLen] at *; omega
     rw [if_neg hm]
     refine ⟨_, rfl, by simp, ?_⟩
     intro j hj
@@ -443,9 +457,19 @@ theorem truncation_safe_lemma (hdr : List Nat) (s : List Int) (hh : hdr.length =
     by_cases hp : headerLen + 4 * (j + 1) ≤ k
     · rw [if_pos hp, if_neg]
       · rw [sampleAt_take _ _ _ (by omega), ← hh, sampleAt_body, be32_roundtrip _ (hs j hj).1 (hs j hj).2]
-      · simp only [pyCeilDiv, headerLen] at *; omega
+      · have hb : 0 < modelBacktrack (modelMissing (s.length : Int) (k : Int) (headerLen : Int) 0) := by
+          simp only [modelBacktrack, modelMissing, pyCeilDiv, headerLen] at *; omega
+        have hs' := sliceStart_neg s.length _ hb
+        simp only [modelTailLower]
+        simp only [modelBacktrack, modelMissing, pyCeilDiv, headerLen] at *
+        omega
     · rw [if_neg hp, if_pos]
-      simp only [pyCeilDiv, headerLen] at *; omega
+      have hb : 0 < modelBacktrack (modelMissing (s.length : Int) (k : Int) (headerLen : Int) 0) := by
+        simp only [modelBacktrack, modelMissing, pyCeilDiv, headerLen] at *; omega
+      have hs' := sliceStart_neg s.length _ hb
+      simp only [modelTailLower]
+      simp only [modelBacktrack, modelMissing, pyCeilDiv, headerLen] at *
+      omega
 
 /-! ## permutations of sample lists -/
 
@@ -454,7 +478,7 @@ theorem length_permute {α} (d : α) (l : List α) (f : Nat → Nat) : (permute 
 
 theorem permute_getD (l : List Int) (f : Nat → Nat) (i : Nat) (hi : i < l.length) :
     (permute 0 l f).getD i 0 = l.getD (f i) 0 := by
-  simp only [permute]
+  simp only [permute, toArray_getD]
   exact getD_map_range _ _ _ hi
 
 theorem eq_of_getD (l₁ l₂ : List Int) (hl : l₁.length = l₂.length) (h : ∀ i, i < l₁.length → l₁.getD i 0 = l₂.getD i 0) : l₁ = l₂ := by
@@ -477,5 +501,137 @@ theorem getD_mem_or_zero (l : List Int) (i : Nat) : l.getD i 0 ∈ l ∨ l.getD 
   · left; simp [List.getD_eq_getElem?_getD, List.getElem?_eq_getElem h]
   · right; simp [List.getD_eq_getElem?_getD, List.getElem?_eq_none (by omega : l.length ≤ i)]
 
+
+/-! ## the Code V data block as text -/
+
+/-- a token: non-empty, no white space inside -/
+def CleanTok (t : List Char) : Prop := t ≠ [] ∧ ∀ c ∈ t, isWS c = false
+
+theorem splitWS_append_nows (t rest cur : List Char) (h : ∀ c ∈ t, isWS c = false) :
+    splitWS (t ++ rest) cur = splitWS rest (cur ++ t) := by
+  induction t generalizing cur with
+  | nil => simp
+  | cons c cs ih =>
+    have hc : isWS c = false := h c (List.mem_cons_self)
+    have e : splitWS (c :: (cs ++ rest)) cur = splitWS (cs ++ rest) (cur ++ [c]) := by
+      simp only [splitWS, hc]; rfl
+    rw [List.cons_append, e, ih _ (fun d hd => h d (List.mem_cons_of_mem _ hd))]
+    congr 1; simp
+
+theorem splitWS_nl (rest cur : List Char) (h : cur ≠ []) : splitWS ('\n' :: rest) cur = cur :: splitWS rest [] := by
+  have : isWS '\n' = true := by decide
+  simp [splitWS, this, h]
+
+theorem splitWS_nows (t : List Char) (h : ∀ c ∈ t, isWS c = false) : splitWS t [] = if t.isEmpty then [] else [t] := by
+  have := splitWS_append_nows t [] [] h
+  simp only [List.append_nil, List.nil_append] at this
+  rw [this]; simp [splitWS]
+
+theorem endsWS_append (a b : List Char) (hb : b ≠ []) : endsWS (a ++ b) = endsWS b := by
+  simp only [endsWS, List.getLast?_append_of_ne_nil a hb]
+
+theorem endsWS_nows (t : List Char) (ht : t ≠ []) (h : ∀ c ∈ t, isWS c = false) : endsWS t = false := by
+  simp only [endsWS]
+  have := List.getLast?_eq_some_getLast ht
+  rw [this]
+  exact h _ (List.getLast_mem ht)
+
+theorem length_cvDataText_cons (t : List Char) (ts : List (List Char)) :
+    (cvDataText (t :: ts)).length = t.length + 1 + (cvDataText ts).length := by
+  simp [cvDataText]; omega
+
+/-- the tokens of a prefix of the data block: never more than in the whole block, and when there are as many, the prefix
+does not end in white space and all tokens but the last are the original ones -/
+theorem cut_tokens (toks : List (List Char)) (hc : ∀ t ∈ toks, CleanTok t) (k : Nat) (hk : k < (cvDataText toks).length) :
+    (splitWS ((cvDataText toks).take k) []).length ≤ toks.length ∧
+    ((splitWS ((cvDataText toks).take k) []).length = toks.length →
+      endsWS ((cvDataText toks).take k) = false ∧ (splitWS ((cvDataText toks).take k) []).dropLast = toks.dropLast ∧
+      splitWS ((cvDataText toks).take k) [] ≠ []) := by
+  induction toks generalizing k with
+  | nil => simp [cvDataText] at hk
+  | cons t ts ih =>
+    have ht := hc t (List.mem_cons_self)
+    have hts : ∀ u ∈ ts, CleanTok u := fun u hu => hc u (List.mem_cons_of_mem _ hu)
+    have hd : cvDataText (t :: ts) = t ++ ('\n' :: cvDataText ts) := by simp [cvDataText]
+    rw [length_cvDataText_cons] at hk
+    by_cases hkt : k ≤ t.length
+    · have hp : (cvDataText (t :: ts)).take k = t.take k := by
+        rw [hd, List.take_append_of_le_length hkt]
+      have hnw : ∀ c ∈ t.take k, isWS c = false := fun c hc' => ht.2 c (List.mem_of_mem_take hc')
+      rw [hp, splitWS_nows _ hnw]
+      by_cases he : (t.take k).isEmpty
+      · simp [he]
+      · simp only [he]
+        refine ⟨by simp, ?_⟩
+        intro hl
+        have hts0 : ts = [] := by
+          cases ts with
+          | nil => rfl
+          | cons u us => simp at hl
+        subst hts0
+        refine ⟨endsWS_nows _ (by simpa using he) hnw, by simp, by simp⟩
+    · have hk' : k = t.length + (1 + (k - t.length - 1)) := by omega
+      have hp : (cvDataText (t :: ts)).take k = t ++ ('\n' :: (cvDataText ts).take (k - t.length - 1)) := by
+        rw [hd, List.take_append]
+        have e1 : t.take k = t := List.take_of_length_le (by omega)
+        have e2 : k - t.length = (k - t.length - 1) + 1 := by omega
+        rw [e1, e2, List.take_succ_cons]
+        simp
+      have hk2 : k - t.length - 1 < (cvDataText ts).length := by omega
+      obtain ⟨i1, i2⟩ := ih hts (k - t.length - 1) hk2
+      rw [hp, splitWS_append_nows _ _ _ ht.2, List.nil_append, splitWS_nl _ _ ht.1]
+      refine ⟨by simp; omega, ?_⟩
+      intro hl
+      have hl' : (splitWS ((cvDataText ts).take (k - t.length - 1)) []).length = ts.length := by simpa using hl
+      obtain ⟨j1, j2, j3⟩ := i2 hl'
+      have hpne : (cvDataText ts).take (k - t.length - 1) ≠ [] := by
+        intro h0; rw [h0] at j3; simp [splitWS] at j3
+      refine ⟨?_, ?_, by simp⟩
+      · rw [show t ++ ('\n' :: (cvDataText ts).take (k - t.length - 1)) = (t ++ ['\n']) ++ (cvDataText ts).take (k - t.length - 1) by simp]
+        rw [endsWS_append _ _ hpne]; exact j1
+      · have tsne : ts ≠ [] := by
+          intro h0; subst h0; simp [cvDataText] at hk2
+        rw [List.dropLast_cons_of_ne_nil j3, List.dropLast_cons_of_ne_nil tsne, j2]
+
+theorem splitWS_data (toks : List (List Char)) (hc : ∀ t ∈ toks, CleanTok t) : splitWS (cvDataText toks) [] = toks := by
+  induction toks with
+  | nil => simp [cvDataText, splitWS]
+  | cons t ts ih =>
+    have ht := hc t (List.mem_cons_self)
+    have hd : cvDataText (t :: ts) = t ++ ('\n' :: cvDataText ts) := by simp [cvDataText]
+    rw [hd, splitWS_append_nows _ _ _ ht.2, List.nil_append, splitWS_nl _ _ ht.1, ih (fun u hu => hc u (List.mem_cons_of_mem _ hu))]
+
+theorem endsWS_data (toks : List (List Char)) (h : toks ≠ []) : endsWS (cvDataText toks) = true := by
+  induction toks with
+  | nil => exact absurd rfl h
+  | cons t ts ih =>
+    have hd : cvDataText (t :: ts) = (t ++ ['\n']) ++ cvDataText ts := by simp [cvDataText]
+    by_cases hts : ts = []
+    · subst hts
+      rw [hd]; simp only [cvDataText, List.flatMap_nil, List.append_nil]
+      rw [endsWS_append _ _ (by simp)]; decide
+    · rw [hd, endsWS_append _ _ (by
+        intro h0; apply hts
+        cases ts with
+        | nil => rfl
+        | cons u us => simp [cvDataText] at h0)]
+      exact ih hts
+
+/-! ## the divisor search of the Code V text layout -/
+
+theorem widthSearch_dvd (size fuel width : Nat) (h1 : 1 ≤ width) (h2 : width ≤ fuel + 1) :
+    widthSearch size fuel width ∣ size ∧ 1 ≤ widthSearch size fuel width ∧ widthSearch size fuel width ≤ width := by
+  induction fuel generalizing width with
+  | zero =>
+    have : width = 1 := by omega
+    subst this; simp [widthSearch]
+  | succ fuel ih =>
+    simp only [widthSearch]
+    split_ifs with a b
+    · have : width = 1 := by omega
+      subst this; simp
+    · exact ⟨Nat.dvd_of_mod_eq_zero b, h1, le_refl _⟩
+    · obtain ⟨i1, i2, i3⟩ := ih (width - 1) (by omega) (by omega)
+      exact ⟨i1, i2, by omega⟩
 
 end C14L
